@@ -22,9 +22,13 @@
 //                            the resolver does NOT do that - see the counter-lemma in Props/C20Recover.lean)
 //   replay                -> srec2 <cycle>:<delta> ...       sparse re-recording of the ordinary replay of the recording
 //   values                -> vals <cycle>:<original>|<replayed> ...  per cycle in which either stream ticked (- = no tick)
+//   source raw|delta      -> ok      raw: graph 1's source is hgv_rawsrc (harness/replay_raw.h): the ticks are WRITTEN through
+//                            the raw output API instead of being applied with apply_delta by a replay node
+//   touch <cycle> <i>     -> ok | err:mode | err:order | err:parse   (raw source, top-level dynamic TSL: at(i) without a write)
 // (grammar of <S>, <delta>: harness/replay_text.h; values: print_value below)
 #include "hgv_common.h"
 #include "replay_text.h"
+#include "replay_raw.h"
 
 #include <hgraph/lib/std/operators/impl/record_replay_memory_impl.h>
 #include <hgraph/lib/std/std_operators.h>
@@ -144,7 +148,7 @@ namespace
                     if (i) out += ",";
                     out += print_value(child, iv.at(i));
                 }
-                return "[" + out + "]";
+                return "[" + out + "]" + (sch.dyn ? "#" + std::to_string(iv.size()) : std::string{});
             }
             case Kind::TSB:
             {
@@ -172,15 +176,15 @@ namespace
     // graph 1: replay(in) -> sparse record(out) + probe "live"
     // graph 2: sparse replay of ':memory:nodes.record.out' -> sparse record(again) + probe "replayed"
     template <typename Seed>
-    std::unique_ptr<GraphRun> run_graph(const Sch &sch, bool second, Seed seed)
+    std::unique_ptr<GraphRun> run_graph(const Sch &sch, bool second, Seed seed, bool raw = false)
     {
         Wiring w;
         record_replay::set_config(w.global_state(),
                                   record_replay::RecordReplayConfig{.backend = std::string{record_replay::MEMORY}});
         OperatorWireResult src = second
             ? call_operator(w, "replay", {str_arg("out"), str_arg("nodes.record", "recordable_id")}, true, sch.meta)
-            : call_operator(w, "replay", {str_arg("in")}, true, sch.meta);
-        if (!src.has_output) throw std::logic_error("replay has no output");
+            : call_operator(w, raw ? "hgv_rawsrc" : "replay", {str_arg("in")}, true, sch.meta);
+        if (!src.has_output) throw std::logic_error("source has no output");
         const WiringPortRef port = src.output.erased();
         (void)call_operator(w, "record", {ts_arg(port), str_arg(second ? "again" : "out")}, false, nullptr);
         (void)wire<ValueProbe>(w, Port<void>{w, port}, Str{second ? "replayed" : "live"});
@@ -215,9 +219,12 @@ int main(int argc, char **argv)
     std::ios::sync_with_stdio(false);
     const bool verbose = argc > 1 && std::string(argv[1]) == "-v";
     hgraph::stdlib::register_standard_operators();
+    register_rawsrc();
 
     std::unique_ptr<Sch>                             sch;
     std::vector<std::pair<std::size_t, std::string>> ticks;   // (cycle, delta text)
+    std::vector<std::pair<std::size_t, std::size_t>> touches; // (cycle, index), raw source only
+    bool                                             raw = false;
     std::unique_ptr<GraphRun>                        run1, run2;
     std::map<std::size_t, Value>                     live, replayed;
     std::vector<std::pair<std::size_t, Value>>       recorded;
@@ -248,7 +255,7 @@ int main(int argc, char **argv)
         {
             if (op == "case")
             {
-                reset_runs(); sch.reset(); ticks.clear();
+                reset_runs(); sch.reset(); ticks.clear(); touches.clear(); raw = false;
                 std::cout << line << "\n";
             }
             else if (op == "schema" && w.size() == 2)
@@ -258,7 +265,7 @@ int main(int argc, char **argv)
                     Cursor c{w[1]};
                     auto   s = parse_schema(c);
                     if (!c.eof()) throw ParseError("trailing input");
-                    reset_runs(); ticks.clear();
+                    reset_runs(); ticks.clear(); touches.clear(); raw = false;
                     sch = std::move(s);
                     std::cout << "ok\n";
                 }
@@ -272,7 +279,7 @@ int main(int argc, char **argv)
             {
                 if (!sch) { std::cout << "err:schema\n"; continue; }
                 const long long cyc = std::stoll(w[1]);
-                if (cyc < 0 || (!ticks.empty() && static_cast<std::size_t>(cyc) <= ticks.back().first))
+                if (!raw_order_ok(cyc, true, ticks, touches))
                 {
                     std::cout << "err:order\n";
                     continue;
@@ -291,10 +298,38 @@ int main(int argc, char **argv)
                     std::cout << "err:parse\n";
                 }
             }
+            else if (op == "source" && w.size() == 2 && (w[1] == "raw" || w[1] == "delta"))
+            {
+                if (!sch) { std::cout << "err:schema\n"; continue; }
+                if (!ticks.empty() || !touches.empty()) { std::cout << "err:order\n"; continue; }
+                raw = w[1] == "raw";
+                std::cout << "ok\n";
+            }
+            else if (op == "touch" && w.size() == 3)
+            {
+                if (!sch) { std::cout << "err:schema\n"; continue; }
+                if (!raw || sch->kind != Kind::TSL || !sch->dyn) { std::cout << "err:mode\n"; continue; }
+                long long cyc = -1, idx = -1;
+                try { cyc = std::stoll(w[1]); idx = std::stoll(w[2]); }
+                catch (...) { std::cout << "err:parse\n"; continue; }
+                if (cyc < 0 || idx < 0 || static_cast<std::size_t>(idx) >= DYN_MAX) { std::cout << "err:parse\n"; continue; }
+                if (!raw_order_ok(cyc, false, ticks, touches)) { std::cout << "err:order\n"; continue; }
+                touches.emplace_back(static_cast<std::size_t>(cyc), static_cast<std::size_t>(idx));
+                std::cout << "ok\n";
+            }
             else if (op == "record" && w.size() == 1)
             {
                 if (!sch) { std::cout << "err:schema\n"; continue; }
                 reset_runs();
+                if (raw)
+                {
+                    g_raw_script = build_raw_script(*sch, ticks, touches);
+                    run1         = run_graph(*sch, false, [&](GlobalStateView) {}, true);
+                    live         = g_values["live"];
+                    recorded     = testing::get_recorded_sparse(run1->gs(), RECORDING_KEY);
+                    std::cout << print_sparse(*sch, "srec", recorded) << "\n";
+                    continue;
+                }
                 auto seq = build_seed();
                 run1     = run_graph(*sch, false, [&](GlobalStateView gs) { testing::set_replay_deltas(gs, "in", seq); });
                 live     = g_values["live"];
@@ -395,5 +430,8 @@ int main(int argc, char **argv)
             std::cout << "err:run:" << err_class(e) << "\n";
         }
     }
+    // values of nested dynamic lists need their (function-local static) type contexts: drop them before static destruction
+    reset_runs();
+    g_raw_script = RawScript{};
     return 0;
 }
